@@ -14,7 +14,7 @@ Use from a property script:
     mpmc2b.obligations(ctx); mpmc2b.tie(ctx)
 """
 import os
-from vlib import VERIF
+from vlib import VERIF, CHAN_RUSTFLAGS
 
 THEOREMS = [l.strip() for l in open(os.path.join(VERIF, "props", "mpmc2b.theorems")) if l.strip() and not l.startswith("#")]
 MODULE = "Fv.Props.Mpmc2B"
@@ -47,7 +47,7 @@ def obligations(ctx):
 def tie(ctx, cases=None):
     """Tie (i): history inclusion at critical-section granularity (search for an explaining model run)."""
     drv = ctx.lean_exe("fvdrv_lockedchan")
-    h = ctx.cargo_build("chan", "chanh", rustflags="--cfg loom")
+    h = ctx.cargo_build("chan", "chanh", rustflags=CHAN_RUSTFLAGS)
     ctx.assumptions += [a for a in ASSUMPTIONS if a not in ctx.assumptions]
     if ctx.replay:
         return [ctx.tie("mpmc2b-replay", [h, "run", ctx.replay], [drv])]
